@@ -2,6 +2,7 @@ package eng
 
 import (
 	"fmt"
+	"strings"
 	"go/token"
 	"go/types"
 	"math/big"
@@ -57,6 +58,15 @@ func (e *Engine) unixNano(st *State, t Val, T types.Type) *Term {
 	r := tb.App("time_unixnano", SInt, intTerms(tb, t.T)...)
 	e.assume(st, tb.And(tb.Le(tb.BigInt(new(big.Int).Neg(pow2big(63))), r), tb.Lt(r, tb.BigInt(pow2big(63)))))
 	return r
+}
+
+// isBigEndian: the byte order argument of binary.Read/Write is binary.BigEndian (anything else is treated as little endian, the
+// only other order the repository uses).
+func isBigEndian(order Val) bool {
+	if ix, ok := order.ann("").(*IfaceX); ok && ix.Dyn != nil {
+		return strings.Contains(ix.Dyn.String(), "bigEndian")
+	}
+	return false
 }
 
 // writerKey identifies a writer by its interface value.
@@ -201,10 +211,15 @@ func init() {
 		if e.Opts.StreamModel {
 			// little-endian value of the next size stream bytes
 			var sum *Term = tb.Int(0)
+			be := isBigEndian(args[1])
 			for bi := int64(0); bi < size; bi++ {
 				sb := tb.App("stream", SInt, readerKey(tb, args[0]), tb.Add(e.rpos(st, args[0]), tb.Int(bi)))
 				e.assume(st, tb.And(tb.Le(tb.Int(0), sb), tb.Le(sb, tb.Int(255))))
-				sum = tb.Add(sum, tb.Mul(tb.BigInt(pow2big(int(8*bi))), sb))
+				w := bi
+				if be {
+					w = size - 1 - bi
+				}
+				sum = tb.Add(sum, tb.Mul(tb.BigInt(pow2big(int(8*w))), sb))
 			}
 			e.assume(st, tb.Eq(raw, sum))
 		}
@@ -261,10 +276,15 @@ func init() {
 			u := tb.Ite(tb.Lt(vt, tb.Int(0)), tb.Add(vt, tb.BigInt(pow2big(int(8*size)))), vt)
 			var bs []*Term
 			var sum *Term = tb.Int(0)
+			be := isBigEndian(args[1])
 			for bi := int64(0); bi < size; bi++ {
 				b := tb.Fresh("wr_byte", SInt)
 				e.assume(st, tb.And(tb.Le(tb.Int(0), b), tb.Le(b, tb.Int(255))))
-				sum = tb.Add(sum, tb.Mul(tb.BigInt(pow2big(int(8*bi))), b))
+				w := bi
+				if be {
+					w = size - 1 - bi
+				}
+				sum = tb.Add(sum, tb.Mul(tb.BigInt(pow2big(int(8*w))), b))
 				bs = append(bs, b)
 			}
 			e.assume(st, tb.Eq(u, sum))
